@@ -544,3 +544,39 @@ Proof.
   - unfold member_all in H2. destruct (olookup k_categories r2) as [[| | | |l|]|]; try reflexivity.
     erewrite forallb_ext_in; [exact H2|]. intro x. destruct x; reflexivity.
 Qed.
+
+(* a node step that loops over the actions and then visits the router *)
+Lemma actions_router_step_valid : forall (g lim o g' lim' : bool) (fa fr : mstate -> obj -> mstate * obj),
+  (forall st a, loc_inv st -> action_ok g lim o a = true ->
+                loc_inv (fst (fa st a)) /\ action_ok g' lim' o (snd (fa st a)) = true) ->
+  (forall st r, loc_inv st -> router_ok lim r = true ->
+                loc_inv (fst (fr st r)) /\ router_ok lim' (snd (fr st r)) = true) ->
+  forall st n, loc_inv st -> node_ok g lim o (JObj n) = true ->
+    loc_inv (fst (let '(st1, n1) := on_array_member k_actions fa st n in on_object_member k_router fr st1 n1))
+    /\ node_ok g' lim' o (JObj (snd (let '(st1, n1) := on_array_member k_actions fa st n in on_object_member k_router fr st1 n1))) = true.
+Proof.
+  intros g lim o g' lim' fa fr Ha Hr st n Hst Hn. cbn [node_ok] in Hn. apply andb_true_iff in Hn. destruct Hn as [Hna Hnr].
+  destruct (on_array_member_inv k_actions fa loc_inv (action_ok g lim o) (action_ok g' lim' o) Ha st n Hst) as [H1 H2].
+  { unfold member_all. destruct (olookup k_actions n) as [[| | | |l|]|]; try reflexivity.
+    erewrite forallb_ext_in; [exact Hna|]. intro x. destruct x; reflexivity. }
+  pose proof (on_array_member_other k_actions fa st n k_router ltac:(key_neq)) as Hro.
+  destruct (on_array_member k_actions fa st n) as [st1 n1]. cbn [fst snd] in *.
+  assert (Hacts : match olookup k_actions n1 with
+                  | Some (JArr l) => forallb (fun a => match a with JObj a => action_ok g' lim' o a | _ => true end) l
+                  | _ => true end = true).
+  { unfold member_all in H2. destruct (olookup k_actions n1) as [[| | | |l|]|]; try reflexivity.
+    erewrite forallb_ext_in; [exact H2|]. intro x. destruct x; reflexivity. }
+  unfold on_object_member. rewrite Hro. destruct (olookup k_router n) as [[| | | | |r]|] eqn:Er;
+    cbn [fst snd node_ok]; try (rewrite Hro, Er, Hacts; auto).
+  destruct (Hr st1 r H1 Hnr) as [H3 H4].
+  destruct (fr st1 r) as [st2 r']. cbn [fst snd] in *. split; [exact H3|].
+  rewrite olookup_oset_same, H4, andb_true_r. now rewrite olookup_oset_other by key_neq.
+Qed.
+
+Lemma migrate_13_6_valid : forall lang g o tx fr f,
+  body_ok lang g false o f = true -> body_ok lang g true o (fst (migrate_13_6 tx fr f)) = true.
+Proof.
+  intros lang g o tx fr f H. unfold migrate_13_6.
+  apply (nodes_migration_valid lang g false o g true); [|exact H].
+  unfold node_13_6. apply actions_router_step_valid; [apply action_13_6_valid | apply router_13_6_valid].
+Qed.
